@@ -56,7 +56,7 @@ func entries(ev event, format string) ([]string, error) {
 		if ev.Body == "" {
 			return nil, nil
 		}
-		parts := strings.Split(ev.Body, separator)
+		parts := splitText(ev.Body)
 		// every entry is closed by the separator; text after the last one is an entry only if it looks like
 		// one (it names a message), otherwise it is a footer and no concern of the property
 		if last := parts[len(parts)-1]; reMarker.MatchString(last) || reSeq.MatchString(last) {
@@ -71,6 +71,31 @@ func entries(ev event, format string) ([]string, error) {
 		return nil, fmt.Errorf("json response does not parse: %v", err)
 	}
 	return js.FlowRecords, nil
+}
+
+// splitText cuts a text response at its separator lines: a line of at least 20 identical punctuation
+// characters (the current one is 80 '='; which character and how many is the renderer's choice).
+func splitText(body string) []string {
+	var parts []string
+	var cur []string
+	for _, ln := range strings.SplitAfter(body, "\n") {
+		t := strings.TrimRight(ln, "\r\n")
+		sep := len(t) >= 20 && strings.ContainsRune("=-_*#~+", rune(t[0])) && strings.Count(t, t[:1]) == len(t)
+		if !sep {
+			// the separator may also directly follow the entry's last line without a newline in between
+			if i := strings.Index(t, separator); i >= 0 && t[i:] == separator {
+				cur = append(cur, t[:i])
+				sep = true
+			}
+		}
+		if sep {
+			parts = append(parts, strings.Join(cur, ""))
+			cur = nil
+			continue
+		}
+		cur = append(cur, ln)
+	}
+	return append(parts, strings.Join(cur, ""))
 }
 
 func octetRenderings(hx string) []string {
@@ -89,11 +114,12 @@ func checkEntry(entry string, a event) string {
 			key := "T/" + f[0] + "/" + f[1] + "/" + f[2]
 			re := reCache[key]
 			if re == nil {
-				re = regexp.MustCompile(`(?m)^[ \t]*` + regexp.QuoteMeta(f[0]) + `[ \t]*[:=].*\b` + f[1] + `\b.*\b` + f[2] + `\b`)
+				// a template record's fields have names and no values: the name must be shown
+				re = regexp.MustCompile(`(?m)(?:^|[\s,;{\[(])` + regexp.QuoteMeta(f[0]) + `(?:$|[\s,;:=}\])])`)
 				reCache[key] = re
 			}
 			if !re.MatchString(entry) {
-				return fmt.Sprintf("template field %q (len %s, enterprise %s) is not shown", f[0], f[1], f[2])
+				return fmt.Sprintf("template field %q is not shown by name", f[0])
 			}
 		}
 		return ""
@@ -115,7 +141,8 @@ func checkEntry(entry string, a event) string {
 func fieldShown(sec, name, want, kind string) string {
 	re := reCache[name]
 	if re == nil {
-		re = regexp.MustCompile(`(?m)^[ \t]*` + regexp.QuoteMeta(name) + `[ \t]*[:=][ \t]*(.*?)[ \t]*$`)
+		// "<name> : <value>" at the start of a line or after a delimiter (several pairs may share a line)
+		re = regexp.MustCompile(`(?m)(?:^|[\s,;{\[(])` + regexp.QuoteMeta(name) + `[ \t]*[:=][ \t]*(.*?)[ \t]*$`)
 		reCache[name] = re
 	}
 	ms := re.FindAllStringSubmatch(sec, -1)
@@ -123,11 +150,20 @@ func fieldShown(sec, name, want, kind string) string {
 		return fmt.Sprintf("field %q is not shown by name", name)
 	}
 	var cands []string
-	for _, m := range ms {
-		cands = append(cands, m[1])
+	add := func(v string) {
+		cands = append(cands, v)
 		// a rendering may annotate the value ("1600000000 (2020-09-13T12:26:40Z)"): the value is still shown
-		if am := reAnnot.FindStringSubmatch(m[1]); am != nil {
+		if am := reAnnot.FindStringSubmatch(v); am != nil {
 			cands = append(cands, am[1])
+		}
+	}
+	for _, m := range ms {
+		add(m[1])
+		// other pairs may follow on the same line: the value then ends at one of the delimiters
+		for i, ch := range m[1] {
+			if ch == ',' || ch == ';' {
+				add(strings.TrimRight(m[1][:i], " \t"))
+			}
 		}
 	}
 	for _, got := range cands {
